@@ -24,6 +24,7 @@ class Setting:
         self.cv1 = c03.Cv({"p": kv["p"], "a": kv["a1"], "b": kv["b1"], "gx": g1[0], "gy": g1[1], "n": kv["n"], "h": "1"})
         self.cv2 = c11.Cv2({"p": kv["p"], "qnr": kv["qnr"], "a": kv["a2"], "b": kv["b2"], "g": kv["g2"], "n": kv["n"], "h": kv["h2"]})
         self.gt = kv["gt"]
+        self.kv = kv
 
 
 def p1tok(P):
